@@ -28,6 +28,18 @@ CmpAlphabet == {0, 65, 66, 128, 2048, 65536, 1114111}
 ASSUME JsonSerialize(Out("CMP"), SetToSeq(StrsOver(CmpAlphabet, 0, 2) \X StrsOver(CmpAlphabet, 0, 2)))
 ASSUME JsonSerialize(Out("READER"), SetToSeq(StrsOver(ReaderAlphabet, 0, 2)))
 
+\* COPY   string-copy! on every arrangement of the four width classes (length 4) and one string of length 5:
+\*        every in-domain (at, start, end) -- the aliased call (to = from, all overlaps in both directions)
+\*        and the same call from a distinct source
+Perm4 == {s \in [1..4 -> Classes4] : \A i \in 1..4, j \in 1..4 : i # j => s[i] # s[j]}
+CopyStrings == Perm4 \cup {<<65, 233, 8364, 128512, 66>>}
+CopyCases == UNION {{<<s, at, a, b>> : at \in 0..Len(s), a \in 0..Len(s), b \in 0..Len(s)} : s \in CopyStrings}
+ASSUME JsonSerialize(Out("COPY"), SetToSeq({c \in CopyCases : c[3] <= c[4] /\ c[2] + (c[4] - c[3]) <= Len(c[1])}))
+\* UTF8   every pair of character positions of the four-character literals, as byte offsets for utf8->string
+\*        <<literal source, i, j, byte offset of i, byte offset of j>>
+Utf8Cases == UNION {{<<LitBase + k, i, j, ByteOff(Lits[k], i), ByteOff(Lits[k], j)>> : i \in 0..Len(Lits[k]), j \in 0..Len(Lits[k])} : k \in 5..8}
+ASSUME JsonSerialize(Out("UTF8"), SetToSeq({c \in Utf8Cases : c[2] <= c[3]}))
+
 \* --- error-class enumeration: one step from a loaded state
 EnumRegs == << <<65, 128, 2048, 65536>>, <<1114111>> >>
 \* the steps that load EnumInit (replayed before every error case)
